@@ -1,7 +1,8 @@
 // ethtables: reads the literal constants and tables of the Ethereum header rules of polynetwork/poly from
 // source (go/parser + go/constant, standard library only) and prints them as Lean definitions.
 //
-//	ethtables <repo> lean|json
+//	ethtables <repo> lean|json|certs [k]   (certs: primality / compositeness certificates for both size tables;
+//	                                          k = 0..7 selects the module holding the 64-epoch chunks 4k..4k+3)
 //
 // What is read (and fails loudly when the source no longer has the shape this translator is written for):
 //   - native/service/header_sync/eth/header_sync.go : the big.NewInt(..) package variables (BIG_9, BOMB_DELAY, ...),
@@ -21,6 +22,7 @@ import (
 	"go/constant"
 	"go/parser"
 	"go/token"
+	"math/big"
 	"os"
 	"path/filepath"
 	"regexp"
@@ -472,6 +474,18 @@ func main() {
 		fmt.Println(string(b))
 		return
 	}
+	if mode == "certs" {
+		u := func(name string) uint64 {
+			v, _ := constant.Uint64Val(eth[name])
+			return v
+		}
+		part := -1
+		if len(os.Args) > 3 {
+			fmt.Sscan(os.Args[3], &part)
+		}
+		fmt.Print(certsLean(part, ds, cs, u("datasetInitBytes"), u("datasetGrowthBytes"), u("mixBytes"), u("cacheInitBytes"), u("cacheGrowthBytes"), u("hashBytes")))
+		return
+	}
 	rel := func(p string) string { return strings.TrimPrefix(p, repo+"/") }
 	var b strings.Builder
 	w := func(f string, a ...interface{}) { fmt.Fprintf(&b, f, a...) }
@@ -577,3 +591,131 @@ func leanInt(s string) string {
 
 // leanName keeps Go identifiers; lower-case names that clash with nothing in Lean are fine inside the namespace.
 func leanName(k string) string { return k }
+
+// ---------------------------------------------------------------- size-table certificates
+
+func smallestFactor(n uint64) uint64 {
+	if n%2 == 0 {
+		return 2
+	}
+	for d := uint64(3); d*d <= n; d += 2 {
+		if n%d == 0 {
+			return d
+		}
+	}
+	return n
+}
+
+func primeFactors(n uint64) []uint64 {
+	var out []uint64
+	for n > 1 {
+		f := smallestFactor(n)
+		if len(out) == 0 || out[len(out)-1] != f {
+			out = append(out, f)
+		}
+		n /= f
+	}
+	return out
+}
+
+func powmod(a, e, n uint64) uint64 {
+	r := new(big.Int).Exp(new(big.Int).SetUint64(a), new(big.Int).SetUint64(e), new(big.Int).SetUint64(n))
+	return r.Uint64()
+}
+
+const certSmallBound = 10000
+
+// prattChain appends to chain the entries needed to certify p (sub-primes >= certSmallBound first).
+func prattChain(p uint64, done map[uint64]bool, chain *[]string) {
+	if done[p] {
+		return
+	}
+	done[p] = true
+	qs := primeFactors(p - 1)
+	for _, q := range qs {
+		if q >= certSmallBound {
+			prattChain(q, done, chain)
+		}
+	}
+	a := uint64(2)
+	for ; a < 1000; a++ {
+		if powmod(a, p-1, p) != 1 {
+			continue
+		}
+		ok := true
+		for _, q := range qs {
+			if powmod(a, (p-1)/q, p) == 1 {
+				ok = false
+				break
+			}
+		}
+		if ok {
+			break
+		}
+	}
+	var qq []string
+	for _, q := range qs {
+		qq = append(qq, fmt.Sprint(q))
+	}
+	*chain = append(*chain, fmt.Sprintf("⟨%d, %d, [%s]⟩", p, a, strings.Join(qq, ", ")))
+}
+
+func epochCert(init, growth, unit, epoch, v uint64) string {
+	bound := init + growth*epoch - unit
+	var ws []string
+	if v <= bound && (bound-v)%(2*unit) == 0 && (bound-v)/(2*unit) < 5000 {
+		for sz := bound; sz > v; sz -= 2 * unit {
+			f := smallestFactor(sz / unit)
+			if f == sz/unit {
+				f = 0 // a prime candidate above the table value: no witness exists, the check will fail
+			}
+			ws = append(ws, fmt.Sprint(f))
+		}
+	}
+	var chain []string
+	if v/unit >= 2 {
+		prattChain(v/unit, map[uint64]bool{}, &chain)
+	}
+	return fmt.Sprintf("⟨[%s], [%s]⟩", strings.Join(ws, ", "), strings.Join(chain, ", "))
+}
+
+func minI(a, b int) int {
+	if a < b {
+		return a
+	}
+	return b
+}
+
+func certsLean(part int, ds, cs []string, dInit, dGrowth, dUnit, cInit, cGrowth, cUnit uint64) string {
+	var b strings.Builder
+	w := func(f string, a ...interface{}) { fmt.Fprintf(&b, f, a...) }
+	w("import Poly.Model.EthSizeCert\n")
+	w("/- GENERATED by extract/ethtables (mode certs) from the size tables of header_sync/eth/utils.go — do not edit.\n")
+	w("   For every table entry: a non-trivial divisor for each larger candidate and a Pratt chain for the entry's item count. -/\n")
+	w("namespace Poly.Generated.EthSizeCerts\nopen Poly.Model.EthSizeCert\n")
+	emit := func(name string, t []string, init, growth, unit uint64) {
+		n := 0
+		for i := 0; i < len(t); i += 64 {
+			if part >= 0 && n/4 != part { // module `part` holds the chunks 4*part .. 4*part+3 of both tables
+				n++
+				continue
+			}
+			w("\ndef %s_%d : List Nat := [%s]\n", strings.Replace(name, "Certs", "Vals", 1), n, strings.Join(t[i:minI(i+64, len(t))], ", "))
+			w("\ndef %s_%d : List EpochCert := [", name, n)
+			for j := i; j < i+64 && j < len(t); j++ {
+				if j > i {
+					w(",")
+				}
+				var v uint64
+				fmt.Sscan(t[j], &v)
+				w("\n  %s", epochCert(init, growth, unit, uint64(j), v))
+			}
+			w("]\n")
+			n++
+		}
+	}
+	emit("datasetCerts", ds, dInit, dGrowth, dUnit)
+	emit("cacheCerts", cs, cInit, cGrowth, cUnit)
+	w("\nend Poly.Generated.EthSizeCerts\n")
+	return b.String()
+}
